@@ -416,6 +416,21 @@ def namespace(ctx):
                 o = origin(s1, t['args'][2])
                 ok = 'parent_namespace' in o.fields and o.params() == {1} and origin(s1, t['args'][0]).params() == {1}
     ctx.ob('NAMESPACE', 'serializable-copies-namespace', ok, short_loc(s1.span) if s1 else None, 'serializable() copies parent_namespace: %s' % ok)
+    # serializable_with_namespace hands the children exactly the namespace it was given (a record in the null namespace
+    # puts its children in the null namespace - falling back to the enclosing namespace would write their names relative
+    # to a namespace the reader will not resolve them in)
+    s2 = fn_by_label(f, SER + 'SerializeSchema::serializable_with_namespace')
+    ok, det = False, 'serializable_with_namespace not found'
+    if s2 is not None:
+        ctx.touched(s2)
+        nsp = [i for i in range(1, s2.nargs + 1) if 'Option<&' in (s2.local_ty(i) or '') and 'str' in (s2.local_ty(i) or '')]
+        aggs = [s_ for bb in sorted(s2.live_blocks()) if not s2.is_cleanup(bb) for s_ in s2.stmts(bb)
+                if 'assign' in s_ and s_['rv']['k'] == 'agg' and (s_['rv'].get('adt') or '').endswith('SerializeSchema') and 'parent_namespace' in (s_['rv'].get('fields') or [])]
+        if len(nsp) == 1 and aggs:
+            o = origin(s2, aggs[-1]['rv']['ops'][aggs[-1]['rv']['fields'].index('parent_namespace')])
+            ok = o.atoms == {('param', nsp[0])} and 'parent_namespace' not in o.fields and not [c for c in o.calls if not transparent(c)]
+            det = 'children get the namespace passed in, unmodified: %s (%s)' % (ok, o.describe()[:100])
+    ctx.ob('NAMESPACE', 'with-namespace-sets-exactly-it', ok, short_loc(s2.span) if s2 else None, det)
     # the three-way choice when writing a name / a reference compares with the parent namespace
     for nm in ('serialize_name', 'str_for_ref'):
         b = fn_by_label(f, SER + 'SerializeSchema::' + nm)
